@@ -428,6 +428,8 @@ impl CharRefTokenizer {
         input: &BufferQueue,
     ) {
         while self.result.is_none() {
+            #[cfg(feature = "verif")]
+            markup5ever::verif::tick(7);
             match self.state {
                 Begin => drop(self.finish_none()),
 
